@@ -18,6 +18,8 @@ From DT Require Import PyStrFacts.
 From DT Require DocEmit DocParseNG C01SpecNG SyncProps.
 From DT Require DefaultsFacts EmitAstFacts ParseAstFacts DocParseFacts DocParseNGFacts NGScanLink.
 From DT Require SplitFacts C02Compose C02DocLink C04Compose C05Facts C08Facts.
+From DT Require Merge ParseSig C12Spec C07Spec MergeFacts C12Facts ParseSigFacts C07Facts.
+From DT Require PureUtilsFacts C03Spec C03Compose C03DocLinkDefs C03DocLink C03DocLinkClean C03DocLinkEmit C03DocLinkLines C03DocLinkGuard C03DocLinkMain.
 Import ListNotations.
 
 (* ------------------------------------------------------------------ 1. complete descriptions *)
@@ -1009,3 +1011,785 @@ Proof.
   destruct (C03DocLinkDefs.function_docstring_ir text) as [d|e]; cbn [bind]; [|reflexivity].
   unfold C03Spec.round_trip_fn. rewrite (emit_fn_core (fn_opts o f (c :: r)) i (Ok text) c r eq_refl H H7 Hnr). reflexivity.
 Qed.
+
+(* ---- the function docstring link, with the summary ---- *)
+
+(* proofs/C03DocLink.v / C03DocLinkMain.v derive the IR read back from the function docstring with an unnamed summary;
+   the same derivations (the proofs are those of C03DocLink.parse_heads and C03DocLinkMain.C03_doc_link_lemma), keeping it *)
+Module FnLink.
+Import PureUtilsFacts DefaultsFacts DocParseFacts.
+Import C03Spec C03Compose C03DocLinkDefs C03DocLink.
+
+Theorem parse_heads_sum : forall sd docs r ws0 hws,
+    (forall d0, sd = Some d0 -> no_rest_token d0 = true) ->
+    Forall dent_ok docs -> NoDup (map dn docs) -> rent_ok r -> (docs <> [] \/ r <> None) ->
+    map fst hws = heads sd docs r -> forallb isspace ws0 = true -> ws_all hws ->
+    exists sdoc,
+      parse_cleaned (text_of_heads ws0 hws)
+      = Ok (ir_of_parts sdoc (map (fun e => (dn e, dent_fin e)) docs) (rent_fin r))
+      /\ (forall d0, sd = Some d0 -> exists w0, sdoc = strip (ws0 ++ d0 ++ w0) /\ forallb isspace w0 = true).
+Proof.
+  intros sd docs r ws0 hws Hsd Hdocs Hnd Hr Hsome Hh Hws0 Hws.
+  (* the summary part *)
+  assert (Hsplit : exists docpart hwsB,
+             text_of_heads ws0 hws = docpart ++ hw_text hwsB /\ no_rest_token docpart = true
+             /\ map fst hwsB = concat (map dent_heads docs) ++ rent_heads r /\ ws_all hwsB
+             /\ (forall d0', sd = Some d0' -> exists w0, docpart = ws0 ++ d0' ++ w0 /\ forallb isspace w0 = true)).
+  { unfold heads in Hh. destruct sd as [d0|].
+    - destruct hws as [|[h0 w0] hwsB]; [discriminate|]. cbn [map fst app] in Hh. injection Hh as E0 EB. subst h0.
+      exists (ws0 ++ d0 ++ w0), hwsB. split; [|split; [|split; [|split]]].
+      + unfold text_of_heads, hw_text. cbn [map concat fst snd]. rewrite <- !app_assoc. reflexivity.
+      + apply ws_lead_token_free; [exact Hws0|]. apply no_rest_token_ws; [apply Hsd; reflexivity|].
+        apply (Hws (d0, w0)). left. reflexivity.
+      + exact EB.
+      + intros hw Hin. apply Hws. right. exact Hin.
+      + intros d0' E. injection E as E. subst d0'. exists w0. split; [reflexivity|]. apply (Hws (d0, w0)). left. reflexivity.
+    - exists ws0, hws. split; [reflexivity|]. split; [apply isspace_no_token; exact Hws0|]. split; [exact Hh|].
+      split; [exact Hws|]. intros d0' E. discriminate E. }
+  destruct Hsplit as [docpart [hwsB [Etext [Hdoctok [HhB [HwsB Hdocform]]]]]].
+  destruct (dents_entries docs hwsB (rent_heads r) Hdocs HhB HwsB)
+    as [es [hws2 [Etxt [Hh2 [Hws2 [Hnames [Hoks [Hfin [Hmid Hescv]]]]]]]]].
+  destruct (rent_blocks r hws2 Hr Hh2 Hws2) as [rblocks [Ertxt [Hrrun [Hrpost [Hrgood [Hrcv Hrne]]]]]].
+  set (blocks := all_blocks es ++ rblocks).
+  assert (Etext' : text_of_heads ws0 hws = docpart ++ concat (map blk blocks)).
+  { rewrite Etext, Etxt, Ertxt. unfold blocks. rewrite map_app, concat_app. reflexivity. }
+  assert (Hes_good : forall b, In b (all_blocks es) -> block_good b).
+  { intros b Hb. unfold all_blocks in Hb. apply in_concat in Hb.
+    destruct Hb as [bl [Hbl Hb]]. apply in_map_iff in Hbl. destruct Hbl as [e [Ee He]]. subst bl.
+    destruct (Hoks e He) as [_ [_ [Hg _]]]. apply Hg. exact Hb. }
+  assert (Hblocks_good : forall b, In b blocks -> block_good b).
+  { intros b Hb. unfold blocks in Hb. apply in_app_or in Hb. destruct Hb as [Hb|Hb]; [apply Hes_good|apply Hrgood]; exact Hb. }
+  assert (Hblocks_ne : exists b0, In b0 blocks).
+  { destruct es as [|e1 es1].
+    - assert (Eps : docs = []) by (destruct docs; [reflexivity|discriminate]).
+      destruct rblocks as [|b0 rb].
+      + exfalso. destruct Hsome as [H|H]; [apply H; exact Eps|apply (Hrne H); reflexivity].
+      + exists b0. unfold blocks. cbn [all_blocks map concat app]. left. reflexivity.
+    - destruct (Hoks e1) as [_ [_ [_ Hne]]]; [left; reflexivity|].
+      destruct (e_blocks e1) as [|b0 bl] eqn:Eb; [contradiction|].
+      exists b0. unfold blocks, all_blocks. cbn [map concat]. rewrite Eb. left. reflexivity. }
+  (* the replace is the identity *)
+  assert (Hrepl : replace cvar (L ":param") (docpart ++ concat (map blk blocks)) = docpart ++ concat (map blk blocks)).
+  { apply replace_absent. apply cvar_free_text.
+    - apply (proj1 (no_rest_token_spec docpart) Hdoctok cvar cvar_in_tokens).
+    - intros b Hb. unfold blocks in Hb. apply in_app_or in Hb. destruct Hb as [Hb|Hb]; [apply Hescv|apply Hrcv]; exact Hb. }
+  (* the scanner *)
+  assert (Hscan : scan_rest (docpart ++ concat (map blk blocks)) = (false, docpart) :: map as_line blocks).
+  { apply scan_rest_blocks; [exact Hdoctok|exact Hblocks_good|].
+    left. destruct Hblocks_ne as [b0 Hb0]. intros E. rewrite E in Hb0. destruct Hb0. }
+  (* the parse phase *)
+  assert (Hnd' : NoDup (map e_name es)) by (rewrite Hnames; exact Hnd).
+  set (sdoc := strip docpart).
+  assert (Hphase : exists cur', parse_phase_rest ((false, docpart) :: map as_line blocks) false true true true
+                   = Ok (mkRS sdoc (map (fun e => (e_name e, e_mid e)) es) (rent_fin r) cur')).
+  { unfold parse_phase_rest. cbn [fold_outcome]. unfold parse_rest_line at 1. cbn [init_rstate rs_doc].
+    unfold init_rstate. cbn [bind rs_params rs_returns rs_cur rs_doc]. fold sdoc.
+    unfold blocks. rewrite map_app, fold_outcome_app, <- all_lines_blocks.
+    fold (step true true).
+    destruct es as [|e1 es1].
+    - cbn [all_lines map concat fold_outcome bind].
+      rewrite Hrrun by reflexivity. cbn [bind rs_doc rs_params rs_returns rs_cur fst].
+      eexists. reflexivity.
+    - rewrite (run_entries true true (e1 :: es1) sdoc [] None (None, empty_param) Hoks).
+      2:{ cbn [names_ok]. split; [reflexivity|].
+          apply (names_ok_of_nodup true true).
+          - intros e He. apply Hoks. right. exact He.
+          - destruct (Hoks e1) as [[_ Hb] _]; [left; reflexivity|exact Hb].
+          - exact Hnd'. }
+      cbn [bind]. rewrite Hrrun by reflexivity. cbn [bind rs_doc rs_params rs_returns rs_cur].
+      cbn [run_spec]. change (flushed [] (None, empty_param)) with (@nil (str * param)).
+      destruct (final_params es1 [] (e_name e1) (e_mid e1)) as [nl' [pl [H1 [H2 H3]]]].
+      { cbn [map app]. exact Hnd'. }
+      rewrite H1. cbn [fst snd].
+      assert (Hlast : exists e, In e (e1 :: es1) /\ nl' = e_name e /\ pl = e_mid e).
+      { destruct H3 as [[E1 [E2 E3]]|[e [He [E2 E3]]]].
+        - exists e1. split; [left; reflexivity|]. split; assumption.
+        - exists e. split; [right; exact He|]. split; assumption. }
+      destruct Hlast as [el [Hel [Enl Epl]]]. subst nl' pl.
+      destruct (Hoks el Hel) as [_ [[_ [[mi [HI HS]] _]] _]].
+      rewrite HI. cbn [bind]. rewrite HS. cbn [bind fst snd]. unfold maybe_remove. rewrite andb_false_r. cbn [bind].
+      rewrite H2. eexists. reflexivity. }
+  destruct Hphase as [cur' Hphase].
+  assert (Hparse : parse_rest (docpart ++ concat (map blk blocks)) false true true true
+                   = Ok (ir_of_parts sdoc (map (fun e => (e_name e, e_fin e)) es) (rent_fin r))).
+  { unfold parse_rest. rewrite Hscan, Hphase. cbn [bind rs_params rs_returns rs_doc].
+    rewrite (map_params_entries true es).
+    2:{ intros e He. destruct (Hoks e He) as [_ [[_ [_ H]] _]]. exact H. }
+    cbn [bind]. rewrite Hrpost. cbn [bind post_remove fst snd]. reflexivity. }
+  assert (Hstyle : detect_style (Some (docpart ++ concat (map blk blocks))) = Rest).
+  { destruct Hblocks_ne as [b0 Hb0].
+    apply (detect_style_rest _ (fst b0)).
+    - rewrite <- rest_scan_tokens_eq. apply (Hblocks_good b0 Hb0).
+    - apply contains_block_token. exact Hb0. }
+  exists sdoc. split; [|intros d0' E; destruct (Hdocform d0' E) as [w0 [Ed Hw0]]; exists w0; split; [unfold sdoc; rewrite Ed; reflexivity|exact Hw0]].
+  unfold parse_cleaned. rewrite Etext', Hrepl.
+  rewrite parse_dot_rest; [|destruct Hblocks_ne as [b0 Hb0]|exact Hstyle].
+  - rewrite Hparse, Hfin. reflexivity.
+  - intros E. apply app_eq_nil in E. destruct E as [_ E].
+    apply in_split in Hb0. destruct Hb0 as [l1 [l2 El]]. rewrite El in E.
+    rewrite map_app, concat_app in E. apply app_eq_nil in E. destruct E as [_ E].
+    cbn [map concat] in E. apply app_eq_nil in E. destruct E as [E _].
+    destruct (Hblocks_good b0) as [Htok _]; [rewrite El; apply in_or_app; right; left; reflexivity|].
+    unfold blk in E. apply app_eq_nil in E. destruct E as [E _]. rewrite E in Htok.
+    revert Htok. vm_compute. intros H. repeat (destruct H as [H|H]; [discriminate|]). exact H.
+Qed.
+
+Theorem fn_doc_link_sum : forall w o i,
+    guard_C03 o i = true -> doc_link_ok w o i = true ->
+    exists text d,
+      function_docstring_text w o i = Ok text
+      /\ function_docstring_ir text = Ok d
+      /\ doc_agrees o i d = true
+      /\ (forall d0, ir_doc i = Has d0 -> d0 <> [] -> ir_doc d = Has d0).
+Proof.
+  intros w o i Hg Hl.
+  pose proof (C03DocLinkGuard.guard_link_facts w o i Hg Hl) as Hfacts. cbv zeta in Hfacts.
+  destruct Hfacts as [Hsum [Hsumtok [Hents [Hret [Hdents [Hnd [Hrent Hsome]]]]]]].
+  destruct (C03DocLink.guard_agree_facts o i Hg) as [Hndp [Hpf Hrf]].
+  assert (Hlast : forall g d l, ir_returns i = Has g -> prose_of g = Some d ->
+                                emitted_typ (negb (fo_inline o)) g = None -> last_c d = Some l -> isspace l = false).
+  { intros g d l Eg Ep _ Hlc. destruct (Hrf g Eg d Ep) as [_ [[_ [l' [Hl' Hsp]]] _]].
+    rewrite Hlc in Hl'. injection Hl' as Hl'. subst l'. exact Hsp. }
+  destruct (C03DocLinkLines.to_docstring_lines w i (fo_edd o) (fo_indent o) (negb (fo_inline o)) (fo_sep_tab o)
+              (fo_word_wrap o) Hsum Hents Hret Hlast Hsome)
+    as [text [i' [lns [Htd [Etext [Hne [Hok Hheads]]]]]]].
+  destruct (C03DocLinkClean.cleandoc_heads lns Hne Hok) as [ws0 [hws [Hcd [Hfst [Hws0 Hws]]]]].
+  assert (Hwsall : C03DocLink.ws_all hws).
+  { intros hw Hin. rewrite forallb_forall in Hws. apply (Hws hw Hin). }
+  rewrite Hheads in Hfst.
+  destruct (parse_heads_sum (sum_of i) (docs_of (negb (fo_inline o)) (ir_params i))
+              (rent_of (negb (fo_inline o)) (ir_returns i)) ws0 hws Hsumtok Hdents Hnd Hrent Hsome Hfst Hws0 Hwsall)
+    as [sdoc [Hparse Hsdoc]].
+  exists text. eexists. split; [|split; [|split]].
+  - unfold function_docstring_text. rewrite Htd. reflexivity.
+  - unfold function_docstring_ir. rewrite Etext, Hcd. cbn [bind]. exact Hparse.
+  - unfold doc_agrees, DocParse.ir_of_parts. cbn [ir_params ir_returns]. rewrite map_map. cbn [fst snd].
+    rewrite (C03DocLink.params_agree (negb (fo_inline o)) (ir_params i) Hndp Hpf). cbn [andb].
+    apply C03DocLink.returns_agree. exact Hrf.
+  - intros d0 Ed0 Hne0. unfold DocParse.ir_of_parts. cbn [ir_doc]. f_equal.
+    assert (Es : sum_of i = Some d0).
+    { unfold sum_of, DocEmit.truthy_fld. rewrite Ed0. destruct d0; [contradiction|reflexivity]. }
+    destruct (Hsdoc d0 Es) as [w0 [E Hw0]]. rewrite E.
+    apply strip_pad; [exact Hws0|exact Hw0|].
+    apply strip_fix_edge_ok; [exact Hne0|].
+    unfold doc_link_ok in Hl. apply andb_true_iff in Hl. destruct Hl as [Hl _]. apply andb_true_iff in Hl. destruct Hl as [Hl _].
+    apply andb_true_iff in Hl. destruct Hl as [Hl _]. unfold summary_link_ok in Hl. rewrite Es in Hl.
+    apply andb_true_iff in Hl. destruct Hl as [Hl _]. apply andb_true_iff in Hl. destruct Hl as [Hl _].
+    unfold C01Spec.clean_line in Hl. apply andb_true_iff in Hl. destruct Hl as [Hl _]. apply str_eqb_eq in Hl. exact Hl.
+Qed.
+End FnLink.
+
+(* ---- the function round trip, with the fields C03_at does not mention ---- *)
+
+Module FnRT.
+Import Merge ParseSig C12Spec C07Spec MergeFacts C12Facts ParseSigFacts C07Facts.
+Import C03Spec C03Compose.
+
+(* parse.function on a function whose body is its docstring alone: no carried body is recorded *)
+Lemma parse_fn_internal : forall d n a text r res, ir_internal d = None ->
+    parse_fn (Some d) (SFunc n a [SExpr (EConst (VStr text))] [] r) = Ok res -> ir_internal res = None.
+Proof.
+  intros d n a text r res Hd H. unfold parse_fn, parse_function in H.
+  binv H. binv H. rename a0 into pp. rename a1 into merged.
+  unfold pf_prepare in Ha. cbn [negb] in Ha.
+  destruct (negb (arg_exprs_ok a)); [discriminate Ha|]. cbn [docstring_of bind tl] in Ha.
+  binv Ha. injection Ha as Ha. subst pp. cbn [pp_target pp_other] in Ha0.
+  unfold ir_merge in Ha0. cbn [ir_params ir_returns ir_internal ir_name ir_type ir_doc] in Ha0.
+  match type of Ha0 with (if ?c then _ else _) = _ => destruct c; [discriminate Ha0|] end.
+  binv Ha0. binv Ha0. injection Ha0 as Ha0. subst merged.
+  unfold pf_finish in H. cbn [ir_internal ir_name ir_type ir_doc ir_params ir_returns] in H.
+  binv H. binv H. binv H. injection H as H. subst res. cbn [ir_internal merge_internal]. exact Hd.
+Qed.
+
+Theorem fn_round_trip_fields : forall o i text d,
+  guard_C03 o i = true -> doc_agrees o i d = true -> ir_returns i = FNone -> ir_internal d = None ->
+  exists r, round_trip_fn o i (Ok text) (Some d) = Ok r /\ same_interface_fn (fo_kind o) i r = true
+            /\ ir_doc r = ir_doc d /\ ir_internal r = None.
+Proof.
+  intros o i text d G DA Hnoret Hdint. pose proof (guard_inv o i G) as GF.
+  unfold doc_agrees in DA. apply andb_true_iff in DA. destruct DA as [DAp DAr].
+  destruct (returns_round_trip o i d GF DAr)
+    as (rv & rv' & ann & ann' & Hrv & Hann & Hrvre & Hannre & rets & rets' & Hir & Hfin & Hsame_r).
+  assert (Hps : forall kv, In kv (nkp i) -> emitted_param_facts o (snd kv)).
+  { intros [n g] Hin. cbn [snd]. apply nkp_In in Hin. destruct Hin as [HinP Hnk].
+    pose proof (gf_entries _ _ GF n g HinP) as Hdom.
+    destruct (param_class_inv o n g Hnk Hdom (gf_params _ _ GF n g HinP)) as [v F].
+    apply (param_emitted_facts o g v Hdom F). }
+  assert (Hemit : emit_fn o i (Ok text) = Ok (SFunc fname (emitted_arguments o i) (emitted_body text rv) [] ann)).
+  { apply emit_fn_shape; [exact (gf_kind _ _ GF)|exact (gf_internal _ _ GF)| |exact Hrv|exact Hann].
+    intros kv Hkv. split; [apply (epf_fits _ _ (Hps kv Hkv))|apply (epf_scalar _ _ (Hps kv Hkv))]. }
+  assert (Hre : reparse_stmt (SFunc fname (emitted_arguments o i) (emitted_body text rv) [] ann)
+                = Ok (SFunc fname (reparsed_arguments o i) (emitted_body text rv') [] ann')).
+  { apply reparse_emitted; [|exact Hrvre|exact Hannre].
+    intros kv Hkv. split; [apply (epf_stable _ _ (Hps kv Hkv))|apply (epf_reparses _ _ (Hps kv Hkv))]. }
+  destruct (params_round_trip o i d GF DAp) as (T & app & m & params2 & Hkw & HmT & HmO & Hm & Hsnt & Hsame_p).
+  pose proof (reparsed_exprs_ok o i Hps) as Hok.
+  destruct (parse_fn_eq d fname (reparsed_arguments o i) (EmitAst.set_value_str text) (opt_list rv') ann'
+                        T app m params2 rets rets' Hok Hkw HmT HmO Hm Hsnt Hir Hfin) as [it Hparse].
+  assert (Erv : rv = None).
+  { unfold EmitAst.function_return_val, EmitAst.returns_param in Hrv. rewrite Hnoret in Hrv. cbn [fget] in Hrv.
+    injection Hrv as Hrv. symmetry. exact Hrv. }
+  subst rv. cbn [opt_list mapM] in Hrvre. injection Hrvre as Hrvre.
+  assert (Hint : ir_internal (mkIR (Has fname) (Has (get_function_type (reparsed_arguments o i))) (ir_doc d) params2 rets' it) = None).
+  { apply (parse_fn_internal d fname (reparsed_arguments o i) (EmitAst.set_value_str text) ann' _ Hdint).
+    rewrite <- Hparse. rewrite <- Hrvre. reflexivity. }
+  unfold round_trip_fn. rewrite Hemit. cbn [bind]. rewrite Hre. cbn [bind].
+  unfold emitted_body, EmitAst.set_value. rewrite Hparse.
+  eexists. split; [reflexivity|]. split; [|split; [reflexivity|exact Hint]].
+  unfold same_interface_fn. cbn [ir_params ir_returns]. rewrite Hsame_p, Hsame_r. cbn [andb].
+  unfold kind_preserved. cbn [ir_type].
+  assert (HinS : forallb not_self_cls (nk_names i) = true).
+  { apply forallb_forall. intros n Hn. unfold nk_names in Hn. apply in_map_iff in Hn. destruct Hn as [[n' g] [E Hin]].
+    cbn [fst] in E. subst n'. apply nkp_In in Hin. destruct Hin as [Hin _].
+    apply (name_facts n). apply (gf_names _ _ GF). apply in_map_iff. exists (n, g). auto. }
+  rewrite (found_type_kind o i (gf_kind _ _ GF) HinS). apply str_eqb_refl.
+Qed.
+End FnRT.
+
+(* ---- same_interface_fn on complete descriptions ---- *)
+
+Lemma same_param_fn_complete : forall g g', complete_entry g = true -> C03Spec.same_param_fn g g' = true -> g' = g.
+Proof.
+  intros g [gd' gt' gdef'] Hc H. destruct (complete_entry_shape g Hc) as [c [r [t [v [E Hv]]]]]. subst g.
+  unfold C03Spec.same_param_fn in H. apply andb_true_iff in H. destruct H as [H Hd]. apply andb_true_iff in H. destruct H as [Ht Hp].
+  unfold C02Spec.same_typ in Ht. unfold C02Spec.same_prose, C02Spec.prose_of in Hp. unfold C02Spec.default_same in Hd.
+  cbn [g_doc g_typ g_default fget] in *.
+  destruct gt' as [| |t']; cbn [fget C02Spec.opt_str_eqb] in Ht; try discriminate Ht. apply str_eqb_eq in Ht. subst t'.
+  destruct gd' as [| |[|c' r']]; cbn [C02Spec.opt_str_eqb] in Hp; try discriminate Hp. apply str_eqb_eq in Hp. rewrite <- Hp.
+  destruct gdef' as [w|]; [|discriminate Hd]. unfold C02Spec.same_default in Hd.
+  assert (Hn : C02Spec.d_none_like (DV v) = false) by exact Hv. rewrite Hn in Hd. cbn [andb orb] in Hd.
+  apply C05Facts.dval_eqb_eq in Hd. subst w. reflexivity.
+Qed.
+
+Lemma od_get_skip : forall (k n : str) (g : gparam) b, k <> n -> od_get k ((n, g) :: b) = od_get k b.
+Proof.
+  intros k n g b H. cbn [od_get]. destruct (str_eqb k n) eqn:E; [apply str_eqb_eq in E; contradiction|reflexivity].
+Qed.
+
+Lemma same_params_fn_complete : forall a b, NoDup (map fst a) ->
+    forallb (fun kv => complete_entry (snd kv)) a = true -> C03Spec.same_params_fn a b = true -> b = a.
+Proof.
+  intros a b Hnd Hc H. unfold C03Spec.same_params_fn in H. apply andb_true_iff in H. destruct H as [Hk Hf].
+  apply C03Compose.list_eqb_str_eq in Hk. unfold od_keys in Hk.
+  revert b Hnd Hc Hk Hf. induction a as [|[n g] a IH]; intros [|[n' g'] b] Hnd Hc Hk Hf; cbn [map fst] in Hk; try discriminate Hk.
+  - reflexivity.
+  - injection Hk as Hn Hk. subst n'. inversion Hnd as [|x l Hnotin Hnd']; subst x l.
+    cbn [forallb snd fst] in Hc, Hf. apply andb_true_iff in Hc. destruct Hc as [Hg Hc].
+    apply andb_true_iff in Hf. destruct Hf as [Hh Hf].
+    cbn [od_get] in Hh. rewrite str_eqb_refl in Hh.
+    rewrite (same_param_fn_complete g g' Hg Hh). f_equal. apply (IH b Hnd' Hc Hk).
+    apply forallb_forall. intros kv Hin. rewrite forallb_forall in Hf. specialize (Hf kv Hin).
+    rewrite od_get_skip in Hf; [exact Hf|]. intros E. apply Hnotin. rewrite <- E. apply in_map. exact Hin.
+Qed.
+
+(* ---- the seven-kind domain ---- *)
+
+Lemma closed_dom7_inv : forall o f i, closed_dom7 o f i = true ->
+    closed_dom o i = true /\ internal_ok7 i = true /\ fn_guard o f kind_static i = true /\ fn_guard o f kind_self i = true.
+Proof.
+  intros o f i H. unfold closed_dom7 in H. do 3 (apply andb_true_iff in H; destruct H as [H ?]). repeat split; assumption.
+Qed.
+
+Lemma fn_guard_core : forall o f k i i', core i' = core i -> fn_guard o f k i' = fn_guard o f k i.
+Proof. intros o f k i i' E. unfold fn_guard. rewrite !core_view_core, E. reflexivity. Qed.
+
+Theorem closed_dom7_core_eq : forall o f i i', closed_dom7 o f i = true -> core_eq i i' -> internal_ok7 i' = true ->
+    closed_dom7 o f i' = true.
+Proof.
+  intros o f i i' H Hce H7. destruct (closed_dom7_inv o f i H) as [Hd [_ [Hs Hm]]].
+  unfold closed_dom7. rewrite (closed_dom_core_eq o i i' Hd Hce), H7.
+  rewrite (fn_guard_core o f _ i i' (core_eq_core i i' Hce)), (fn_guard_core o f _ i i' (core_eq_core i i' Hce)), Hs, Hm.
+  reflexivity.
+Qed.
+
+Lemma closed_dom_summary : forall o i, closed_dom o i = true -> exists d0, ir_doc i = Has d0 /\ d0 <> [].
+Proof.
+  intros o i H. destruct (closed_dom_inv o i H) as [_ [_ [_ [_ [_ [_ [Hl _]]]]]]].
+  unfold doc_link_ok in Hl. do 3 (apply andb_true_iff in Hl; destruct Hl as [Hl ?]).
+  destruct (ir_doc i) as [| |d0]; try discriminate Hl. exists d0. split; [reflexivity|].
+  apply andb_true_iff in Hl. destruct Hl as [Hl _]. unfold link_line_ok in Hl.
+  do 4 (apply andb_true_iff in Hl; destruct Hl as [Hl ?]). destruct d0; [discriminate Hl|discriminate].
+Qed.
+
+(* ---- the law of the function / method kinds ---- *)
+
+Theorem conv_fn_closed : forall o f c r i, closed_dom7 o f i = true -> fn_guard o f (c :: r) i = true ->
+    exists i', conv_fn o f (c :: r) i = Ok i' /\ core_eq i i' /\ ir_internal i' = None.
+Proof.
+  intros o f c r i H Hg. destruct (closed_dom7_inv o f i H) as [Hd [H7 _]].
+  destruct (closed_dom_inv o i Hd) as [_ [Hc [_ [_ [_ [_ [_ [_ Hi]]]]]]]].
+  destruct (complete_inv i Hc) as [_ [_ [Hf Hnr]]].
+  destruct (closed_dom_summary o i Hd) as [d0 [Ed0 Hne0]].
+  rewrite (conv_fn_core o f c r i Hi H7 Hnr).
+  unfold fn_guard in Hg. rewrite core_view_core in Hg. apply andb_true_iff in Hg. destruct Hg as [Hg Hl].
+  set (fo := fn_opts o f (c :: r)) in *.
+  destruct (FnLink.fn_doc_link_sum (ce_w o) fo (core i) Hg Hl) as [text [d [Ht [Hdd [Ha Hsum]]]]].
+  assert (Hdint : ir_internal d = None).
+  { unfold C03DocLinkDefs.function_docstring_ir in Hdd. binv Hdd. exact (parse_dot_internal _ _ _ _ _ Hdd). }
+  destruct (FnRT.fn_round_trip_fields fo (core i) text d Hg Ha eq_refl Hdint) as [i' [Hrt [Hsame [Hdoc Hint]]]].
+  exists i'. split; [|split; [|exact Hint]].
+  - unfold conv_fn. fold fo. rewrite Ht. cbn [bind]. rewrite Hdd. cbn [bind]. exact Hrt.
+  - unfold C03Spec.same_interface_fn in Hsame. apply andb_true_iff in Hsame. destruct Hsame as [Hsame _].
+    apply andb_true_iff in Hsame. destruct Hsame as [Hps Hrs]. cbn [core ir_params ir_returns] in Hps, Hrs.
+    constructor.
+    + rewrite Hdoc. rewrite Ed0. apply Hsum; [exact Ed0|exact Hne0].
+    + apply same_params_fn_complete; [|exact Hf|exact Hps].
+      exact (C03Compose.gf_nodup _ _ (C03Compose.guard_inv fo (core i) Hg)).
+    + intros g E. unfold C03Spec.same_returns_fn in Hrs. rewrite E in Hrs. cbn [fget] in Hrs. discriminate Hrs.
+    + apply internal_ok_None. exact Hint.
+Qed.
+
+Lemma internal_ok7_None : forall i, ir_internal i = None -> internal_ok7 i = true.
+Proof. intros i H. unfold internal_ok7. rewrite H. reflexivity. Qed.
+
+Lemma internal_ok7_out : forall o k i, env_ok7 o = true -> closed_kind k = true -> internal_ok7 (out_model o k i) = true.
+Proof.
+  intros o k i He Hk. unfold env_ok7 in He. apply andb_true_iff in He. destruct He as [_ He].
+  destruct k; try discriminate Hk; try reflexivity.
+  unfold internal_ok7. cbn [out_model argparse_out ir_internal in_body in_from_name argparse_remnant]. exact He.
+Qed.
+
+Lemma env_ok7_env_ok : forall o, env_ok7 o = true -> env_ok o = true.
+Proof. intros o H. unfold env_ok7 in H. apply andb_true_iff in H. apply H. Qed.
+
+Theorem law7 : forall o f k, env_ok7 o = true -> kind_law (conv_model7 o f) (closed_dom7 o f) k.
+Proof.
+  intros o f k He i H. destruct (closed_dom7_inv o f i H) as [Hd [_ [Hs Hm]]].
+  pose proof (env_ok7_env_ok o He) as He5.
+  assert (Hold : closed_kind k = true -> conv_model7 o f k i = conv_model o k i ->
+                 exists i', conv_model7 o f k i = Ok i' /\ preserved i i' = true /\ closed_dom7 o f i' = true).
+  { intros Hk Hcm. exists (out_model o k i). split; [rewrite Hcm; exact (conv_model_closed o k i He5 Hk Hd)|].
+    split; [exact (out_model_preserved o k i Hk Hd)|].
+    exact (closed_dom7_core_eq o f i _ H (out_model_core_eq o k i Hk) (internal_ok7_out o k i He Hk)). }
+  assert (Hfn : forall c r, fn_guard o f (c :: r) i = true ->
+                exists i', conv_fn o f (c :: r) i = Ok i' /\ preserved i i' = true /\ closed_dom7 o f i' = true).
+  { intros c r Hg. destruct (conv_fn_closed o f c r i H Hg) as [i' [Hc [Hce Hint]]]. exists i'. split; [exact Hc|].
+    split; [exact (core_eq_preserved o i i' Hd Hce)|].
+    exact (closed_dom7_core_eq o f i i' H Hce (internal_ok7_None i' Hint)). }
+  destruct k; try (apply Hold; reflexivity).
+  - exact (Hfn _ _ Hs).
+  - exact (Hfn _ _ Hm).
+Qed.
+
+Theorem chain_closed7 : forall o f cs, env_ok7 o = true ->
+    forall i, closed_dom7 o f i = true ->
+    exists i', chain (conv_model7 o f) cs i = Ok i' /\ preserved i i' = true /\ closed_dom7 o f i' = true.
+Proof.
+  intros o f cs He.
+  apply (C05Facts.chain_preserved ir kind preserved (conv_model7 o f) (closed_dom7 o f)
+                                  C05Facts.preserved_refl C05Facts.preserved_trans cs).
+  intros k _. exact (law7 o f k He).
+Qed.
+
+Corollary chain_closed7_no_swap : forall o f cs, env_ok7 o = true ->
+    forall i, closed_dom7 o f i = true ->
+    exists i', chain (conv_model7 o f) cs i = Ok i'
+               /\ List.length (ir_params i) = List.length (ir_params i')
+               /\ forall k n g, nth_error (ir_params i) k = Some (n, g) ->
+                  exists g', nth_error (ir_params i') k = Some (n, g')
+                             /\ C01Spec.same_typ g g' = true /\ C01Spec.same_prose g g' = true
+                             /\ same_default_ir (g_default g) (g_default g') = true.
+Proof.
+  intros o f cs He i Hi. destruct (chain_closed7 o f cs He i Hi) as [i' [Hc [Hp _]]].
+  exists i'. split; [exact Hc|]. exact (C05Facts.preserved_no_swap i i' Hp).
+Qed.
+
+Corollary chain_closed7_exact : forall o f cs, env_ok7 o = true ->
+    forall i, closed_dom7 o f i = true ->
+    exists i', chain (conv_model7 o f) cs i = Ok i' /\ ir_doc i' = ir_doc i /\ ir_params i' = ir_params i
+               /\ (forall g, ir_returns i' <> Has g).
+Proof.
+  intros o f cs He i Hi. destruct (chain_closed7 o f cs He i Hi) as [i' [Hc [Hp _]]].
+  exists i'. split; [exact Hc|]. destruct (closed_dom7_inv o f i Hi) as [Hd _].
+  destruct (closed_dom_inv o i Hd) as [_ [Hco _]]. exact (complete_preserved_eq i i' Hco Hp).
+Qed.
+
+Lemma closed_dom7_in_closed_dom : forall o f i, closed_dom7 o f i = true -> closed_dom o i = true.
+Proof. intros o f i H. apply (closed_dom7_inv o f i H). Qed.
+
+(* ---- C08 for all seven kinds ---- *)
+
+Theorem conv_model7_fixpoint : forall o f k i i1, env_ok7 o = true -> closed_dom7 o f i = true ->
+    conv_model7 o f k i = Ok i1 -> conv_model7 o f k i1 = Ok i1.
+Proof.
+  intros o f k i i1 He H Hc. destruct (closed_dom7_inv o f i H) as [Hd [_ [Hs Hm]]].
+  pose proof (env_ok7_env_ok o He) as He5.
+  assert (Hfn : forall c r, fn_guard o f (c :: r) i = true -> conv_fn o f (c :: r) i = Ok i1 -> conv_fn o f (c :: r) i1 = Ok i1).
+  { intros c r Hg Hcf. destruct (conv_fn_closed o f c r i H Hg) as [i' [Hc' [Hce Hint]]].
+    rewrite Hcf in Hc'. injection Hc' as Hc'. subst i'.
+    destruct (closed_dom_inv o i Hd) as [_ [Hco [_ [_ [_ [_ [_ [_ Hi]]]]]]]]. destruct (complete_inv i Hco) as [_ [_ [_ Hnr]]].
+    destruct (closed_dom7_inv o f i H) as [_ [H7 _]].
+    rewrite (conv_fn_core o f c r i1 (internal_ok_None i1 Hint) (internal_ok7_None i1 Hint) (ce_ret _ _ Hce)).
+    rewrite (core_eq_core i i1 Hce). rewrite <- (conv_fn_core o f c r i Hi H7 Hnr). exact Hcf. }
+  destruct k;
+    try (match goal with |- conv_model7 _ _ ?k _ = _ => exact (conv_model_fixpoint o k i i1 He5 eq_refl Hd Hc) end).
+  - exact (Hfn _ _ Hs Hc).
+  - exact (Hfn _ _ Hm Hc).
+Qed.
+
+Lemma conv_emit7 : forall o f k i i', conv_model7 o f k i = Ok i' -> exists t, emit_model7 o f k i = Ok t.
+Proof.
+  intros o f k i i' H.
+  assert (Hfn : forall kd, conv_fn o f kd i = Ok i' ->
+                exists t, (do text <- C03DocLinkDefs.function_docstring_text (ce_w o) (fn_opts o f kd) i;
+                           do s <- C03Spec.emit_fn (fn_opts o f kd) i (Ok text); Ok (AStmt s)) = Ok t).
+  { intros kd Hc. unfold conv_fn in Hc. binv Hc. binv Hc. unfold C03Spec.round_trip_fn in Hc. binv Hc.
+    rewrite Ha. cbn [bind]. rewrite Ha1. eexists. reflexivity. }
+  destruct k;
+    try (match goal with |- exists t, emit_model7 _ _ ?k _ = _ => exact (conv_emit o k i i' H) end).
+  - exact (Hfn _ H).
+  - exact (Hfn _ H).
+Qed.
+
+Theorem C08_closed7_lemma : forall o f k i, env_ok7 o = true -> closed_dom7 o f i = true -> C08_at7 o f k i.
+Proof.
+  intros o f k i He H. destruct (law7 o f k He i H) as [i1 [H1 _]].
+  pose proof (conv_model7_fixpoint o f k i i1 He H H1) as H2.
+  destruct (conv_emit7 o f k i _ H1) as [t1 E1]. destruct (conv_emit7 o f k _ _ H2) as [t2 E2].
+  exists t1, i1, t2, i1, t2. repeat split; assumption.
+Qed.
+
+Corollary C08_after_chain7 : forall o f cs k i, env_ok7 o = true -> closed_dom7 o f i = true ->
+    exists i', chain (conv_model7 o f) cs i = Ok i' /\ C08_at7 o f k i'.
+Proof.
+  intros o f cs k i He H. destruct (chain_closed7 o f cs He i H) as [i' [Hc [_ Hd]]].
+  exists i'. split; [exact Hc|]. exact (C08_closed7_lemma o f k i' He Hd).
+Qed.
+
+(* ---- non-vacuity and the side condition on the argparse function name ---- *)
+
+Lemma w_closed_in_dom7 :
+  env_ok7 default_env = true /\ closed_dom7 default_env default_fenv w_closed = true
+  /\ closed_dom7 default_env (mkFE false false 1 false false) w_closed = true.
+Proof. vm_compute. repeat split; reflexivity. Qed.
+
+Definition sample_chain7 : list kind :=
+  [KClass; KFunction; KArgparse; KMethod; KRest; KFunction; KGoogle; KArgparse; KClass; KMethod; KMethod; KNumpydoc].
+
+Lemma sample_chain7_runs :
+  match chain (conv_model7 default_env default_fenv) sample_chain7 w_closed with
+  | Ok i' => preserved w_closed i' && closed_dom7 default_env default_fenv i'
+  | Err _ => false
+  end = true.
+Proof. vm_compute. reflexivity. Qed.
+
+(* env_ok7 is needed: when the argparse function is also named f, emit.function splices the carried
+   return argument_parser  into f and parse.function invents a return entry (confirmed on the real code) *)
+Definition env_fname_f : cenv :=
+  mkCE 100 false false [] (L "ConfigClass") [L "object"] [] false false
+       false (L "f") (fun _ => L "Doc.") (fun _ => C04Codec.empty_doc_ir) None None.
+
+Lemma env_ok7_needed :
+  env_ok env_fname_f = true /\ env_ok7 env_fname_f = false
+  /\ closed_dom7 env_fname_f default_fenv w_closed = true
+  /\ match chain (conv_model7 env_fname_f default_fenv) [KArgparse; KFunction] w_closed with
+     | Ok i' => negb (preserved w_closed i') && match ir_returns i' with Has _ => true | _ => false end
+     | Err _ => false
+     end = true.
+Proof. vm_compute. repeat split; reflexivity. Qed.
+
+(* ---- which kind blocks which enlargement of the domain ---- *)
+
+Definition passes (k : kind) (i : ir) : bool :=
+  match conv_model7 default_env default_fenv k i with Ok i' => preserved i i' | Err _ => false end.
+
+(* a typed return entry with prose (no default): carried by rest, function, method; numpydoc / google / class give it
+   the default 0, argparse drops it *)
+Definition w_ret : ir :=
+  mkIR FNone (Has (L "static")) (ir_doc w_closed) (ir_params w_closed)
+       (Has (mkG (Has (L "the result.")) (Has (L "int")) None)) None.
+
+Lemma return_entry_blockers :
+  map (fun k => passes k w_ret) all_kinds = [true; false; false; false; true; true; false]
+  /\ map (fun k => chain_safe [k] w_ret) all_kinds = [true; false; false; false; true; true; false].
+Proof. vm_compute. split; reflexivity. Qed.
+
+(* the default None under Optional[...]: only argparse loses it (the default disappears); every other kind returns it
+   as the spelling NoneStr -- which [preserved] identifies with None, so [preserved] no longer determines the
+   parameters and the closure argument of this file (closed_dom_core_eq) does not apply as it stands *)
+Definition w_none : ir :=
+  mkIR FNone (Has (L "static")) (Has (L "Sum."))
+       [(L "x", mkG (Has (L "first.")) (Has (L "Optional[int]")) (Some (DV VNone)));
+        (L "y", cg (L "second.") (L "int") (VInt 2))] FNone None.
+
+Lemma none_default_blockers :
+  map (fun k => passes k w_none) all_kinds = [true; true; true; true; true; true; false]
+  /\ map (fun k => chain_safe [k] w_none) all_kinds = [true; true; true; true; true; true; false]
+  /\ map (fun k => match conv_model7 default_env default_fenv k w_none with
+                   | Ok i' => match ir_params i' with (_, g) :: _ => g_default g | [] => None end
+                   | Err _ => None
+                   end) all_kinds
+     = [Some (DV (VStr PureUtils.NoneStr)); Some (DV (VStr PureUtils.NoneStr)); Some (DV (VStr PureUtils.NoneStr));
+        Some (DV (VStr PureUtils.NoneStr)); Some (DV (VStr PureUtils.NoneStr)); Some (DV (VStr PureUtils.NoneStr)); None].
+Proof. vm_compute. repeat split; reflexivity. Qed.
+
+(* ================================================================== *)
+(* 10. a typed return entry with prose, over rest / function / method                                                 *)
+(* ================================================================== *)
+
+Module FnRT2.
+Import Merge ParseSig C12Spec C07Spec MergeFacts C12Facts ParseSigFacts C07Facts.
+Import C03Spec C03Compose.
+
+Theorem fn_round_trip_fields_ret : forall o i text d,
+  guard_C03 o i = true -> doc_agrees o i d = true -> (forall g, ir_returns i = Has g -> g_default g = None) ->
+  ir_internal d = None ->
+  exists r, round_trip_fn o i (Ok text) (Some d) = Ok r /\ same_interface_fn (fo_kind o) i r = true
+            /\ ir_doc r = ir_doc d /\ ir_internal r = None.
+Proof.
+  intros o i text d G DA Hnoret Hdint. pose proof (guard_inv o i G) as GF.
+  unfold doc_agrees in DA. apply andb_true_iff in DA. destruct DA as [DAp DAr].
+  destruct (returns_round_trip o i d GF DAr)
+    as (rv & rv' & ann & ann' & Hrv & Hann & Hrvre & Hannre & rets & rets' & Hir & Hfin & Hsame_r).
+  assert (Hps : forall kv, In kv (nkp i) -> emitted_param_facts o (snd kv)).
+  { intros [n g] Hin. cbn [snd]. apply nkp_In in Hin. destruct Hin as [HinP Hnk].
+    pose proof (gf_entries _ _ GF n g HinP) as Hdom.
+    destruct (param_class_inv o n g Hnk Hdom (gf_params _ _ GF n g HinP)) as [v F].
+    apply (param_emitted_facts o g v Hdom F). }
+  assert (Hemit : emit_fn o i (Ok text) = Ok (SFunc fname (emitted_arguments o i) (emitted_body text rv) [] ann)).
+  { apply emit_fn_shape; [exact (gf_kind _ _ GF)|exact (gf_internal _ _ GF)| |exact Hrv|exact Hann].
+    intros kv Hkv. split; [apply (epf_fits _ _ (Hps kv Hkv))|apply (epf_scalar _ _ (Hps kv Hkv))]. }
+  assert (Hre : reparse_stmt (SFunc fname (emitted_arguments o i) (emitted_body text rv) [] ann)
+                = Ok (SFunc fname (reparsed_arguments o i) (emitted_body text rv') [] ann')).
+  { apply reparse_emitted; [|exact Hrvre|exact Hannre].
+    intros kv Hkv. split; [apply (epf_stable _ _ (Hps kv Hkv))|apply (epf_reparses _ _ (Hps kv Hkv))]. }
+  destruct (params_round_trip o i d GF DAp) as (T & app & m & params2 & Hkw & HmT & HmO & Hm & Hsnt & Hsame_p).
+  pose proof (reparsed_exprs_ok o i Hps) as Hok.
+  destruct (parse_fn_eq d fname (reparsed_arguments o i) (EmitAst.set_value_str text) (opt_list rv') ann'
+                        T app m params2 rets rets' Hok Hkw HmT HmO Hm Hsnt Hir Hfin) as [it Hparse].
+  assert (Erv : rv = None).
+  { unfold EmitAst.function_return_val, EmitAst.returns_param in Hrv.
+    destruct (ir_returns i) as [| |g0] eqn:Er0; cbn [fget] in Hrv;
+      [injection Hrv as Hrv; symmetry; exact Hrv|injection Hrv as Hrv; symmetry; exact Hrv|].
+    rewrite (Hnoret g0 eq_refl) in Hrv. injection Hrv as Hrv. symmetry. exact Hrv. }
+  subst rv. cbn [opt_list mapM] in Hrvre. injection Hrvre as Hrvre.
+  assert (Hint : ir_internal (mkIR (Has fname) (Has (get_function_type (reparsed_arguments o i))) (ir_doc d) params2 rets' it) = None).
+  { apply (FnRT.parse_fn_internal d fname (reparsed_arguments o i) (EmitAst.set_value_str text) ann' _ Hdint).
+    rewrite <- Hparse. rewrite <- Hrvre. reflexivity. }
+  unfold round_trip_fn. rewrite Hemit. cbn [bind]. rewrite Hre. cbn [bind].
+  unfold emitted_body, EmitAst.set_value. rewrite Hparse.
+  eexists. split; [reflexivity|]. split; [|split; [reflexivity|exact Hint]].
+  unfold same_interface_fn. cbn [ir_params ir_returns]. rewrite Hsame_p, Hsame_r. cbn [andb].
+  unfold kind_preserved. cbn [ir_type].
+  assert (HinS : forallb not_self_cls (nk_names i) = true).
+  { apply forallb_forall. intros n Hn. unfold nk_names in Hn. apply in_map_iff in Hn. destruct Hn as [[n' g] [E Hin]].
+    cbn [fst] in E. subst n'. apply nkp_In in Hin. destruct Hin as [Hin _].
+    apply (name_facts n). apply (gf_names _ _ GF). apply in_map_iff. exists (n, g). auto. }
+  rewrite (found_type_kind o i (gf_kind _ _ GF) HinS). apply str_eqb_refl.
+Qed.
+End FnRT2.
+
+Lemma complete_return_eq : forall g g', complete_return g = true -> preserved_entry g g' = true -> g' = g.
+Proof.
+  intros [gd gt gdef] [gd' gt' gdef'] Hc Hp. unfold complete_return in Hc. cbn [g_doc g_typ g_default] in Hc.
+  destruct (fld_str gd) as [x|] eqn:Ed; [|discriminate]. destruct (fld_str gt) as [t|] eqn:Et; [|discriminate].
+  destruct gdef; [discriminate|].
+  apply C05Facts.preserved_entry_split in Hp. destruct Hp as [Ht [Hd Hv]].
+  unfold C01Spec.same_typ in Ht. unfold C01Spec.same_prose in Hd. cbn [g_doc g_typ g_default] in *.
+  rewrite Et in Ht. rewrite Ed in Hd. apply opt_eqb_str_Some in Ht. apply opt_eqb_str_Some in Hd.
+  rewrite (fld_str_Has _ _ Ed), (fld_str_Has _ _ Et), (fld_str_Has _ _ Ht), (fld_str_Has _ _ Hd).
+  destruct gdef'; [discriminate Hv|reflexivity].
+Qed.
+
+Lemma complete_ret_inv : forall i, complete_ret i = true ->
+    (exists d, ir_doc i = Has d) /\ forallb (fun kv => complete_entry (snd kv)) (ir_params i) = true
+    /\ exists g, ir_returns i = Has g /\ complete_return g = true.
+Proof.
+  intros i H. unfold complete_ret in H. do 3 (apply andb_true_iff in H; destruct H as [H ?]).
+  split; [destruct (ir_doc i) as [| |d]; try discriminate; exists d; reflexivity|]. split; [assumption|].
+  destruct (ir_returns i) as [| |g]; try discriminate. exists g. split; [reflexivity|assumption].
+Qed.
+
+Record ret_eq (i i' : ir) : Prop := mkRetEq {
+  re_doc : ir_doc i' = ir_doc i;
+  re_params : ir_params i' = ir_params i;
+  re_ret : ir_returns i' = ir_returns i;
+  re_int : ir_internal i' = None
+}.
+
+Theorem complete_ret_preserved_eq : forall i i', complete_ret i = true -> preserved i i' = true ->
+    ir_doc i' = ir_doc i /\ ir_params i' = ir_params i /\ ir_returns i' = ir_returns i.
+Proof.
+  intros i i' Hc Hp. destruct (complete_ret_inv i Hc) as [[d Hd] [Hf [g [Hg Hcg]]]].
+  apply C05Facts.preserved_split in Hp. destruct Hp as [Hs [Hps Hr]]. split; [|split].
+  - unfold same_summary in Hs. rewrite Hd in *. cbn [fld_opt] in Hs. apply opt_eqb_str_Some in Hs.
+    destruct (ir_doc i') as [| |d']; try discriminate. cbn in Hs. injection Hs as Hs. subst. reflexivity.
+  - apply complete_params_eq; assumption.
+  - unfold preserved_returns in Hr. rewrite Hg in *. cbn [fld_opt C01Spec.opt_eqb] in Hr.
+    destruct (ir_returns i') as [| |g']; cbn [fld_opt] in Hr; try discriminate Hr.
+    rewrite (complete_return_eq g g' Hcg Hr). reflexivity.
+Qed.
+
+Lemma ret_view_eq : forall i i', ret_eq i i' -> ret_view i' = ret_view i.
+Proof. intros i i' [Hd Hp Hr _]. unfold ret_view. rewrite Hd, Hp, Hr. reflexivity. Qed.
+
+Lemma closed_dom_ret_inv : forall o f i, closed_dom_ret o f i = true ->
+    chain_safe ret_kinds i = true /\ complete_ret i = true /\ guard_C01_rest false i = true
+    /\ internal_ok i = true /\ internal_ok7 i = true
+    /\ fn_guard_ret o f kind_static i = true /\ fn_guard_ret o f kind_self i = true.
+Proof.
+  intros o f i H. unfold closed_dom_ret in H. do 6 (apply andb_true_iff in H; destruct H as [H ?]). repeat split; assumption.
+Qed.
+
+Lemma ret_static_view : forall o f i,
+    (chain_safe ret_kinds i && complete_ret i && guard_C01_rest false i
+     && fn_guard_ret o f kind_static i && fn_guard_ret o f kind_self i)
+    = (chain_safe ret_kinds (ret_view i) && complete_ret (ret_view i) && guard_C01_rest false (ret_view i)
+       && fn_guard_ret o f kind_static (ret_view i) && fn_guard_ret o f kind_self (ret_view i)).
+Proof. intros o f [n t d ps r b]. reflexivity. Qed.
+
+Theorem closed_dom_ret_eq : forall o f i i', closed_dom_ret o f i = true -> ret_eq i i' -> closed_dom_ret o f i' = true.
+Proof.
+  intros o f i i' H Hre. destruct (closed_dom_ret_inv o f i H) as [H1 [H2 [H3 [_ [_ [H6 H7]]]]]].
+  pose proof (ret_static_view o f i) as E. rewrite H1, H2, H3, H6, H7 in E. cbn [andb] in E.
+  pose proof (ret_static_view o f i') as E'. rewrite (ret_view_eq i i' Hre), <- E in E'.
+  apply andb_true_iff in E'. destruct E' as [E' Ee]. apply andb_true_iff in E'. destruct E' as [E' Ed].
+  apply andb_true_iff in E'. destruct E' as [E' Ec]. apply andb_true_iff in E'. destruct E' as [Ea Eb].
+  unfold closed_dom_ret. rewrite Ea, Eb, Ec, Ed, Ee.
+  rewrite (internal_ok_None i' (re_int _ _ Hre)), (internal_ok7_None i' (re_int _ _ Hre)). reflexivity.
+Qed.
+
+Lemma ret_eq_of_preserved : forall o f i i', closed_dom_ret o f i = true -> preserved i i' = true ->
+    ir_internal i' = None -> ret_eq i i'.
+Proof.
+  intros o f i i' H Hp Hi. destruct (closed_dom_ret_inv o f i H) as [_ [Hc _]].
+  destruct (complete_ret_preserved_eq i i' Hc Hp) as [Hd [Hps Hr]]. constructor; assumption.
+Qed.
+
+Lemma ret_eq_preserved : forall i i', ret_eq i i' -> preserved i i' = true.
+Proof.
+  intros i i' [Hd Hp Hr _]. apply C05Facts.preserved_split. split; [|split].
+  - unfold same_summary. rewrite Hd. apply C05Facts.opt_eqb_refl. exact str_eqb_refl.
+  - rewrite Hp. apply C05Facts.preserved_params_refl.
+  - rewrite Hr. apply C05Facts.preserved_returns_refl.
+Qed.
+
+(* rest *)
+Theorem law_rest_ret : forall o f i, closed_dom_ret o f i = true ->
+    exists i', conv_rest i = Ok i' /\ preserved i i' = true /\ closed_dom_ret o f i' = true.
+Proof.
+  intros o f i H. destruct (closed_dom_ret_inv o f i H) as [_ [_ [Hg _]]].
+  destruct (C05Facts.RT_rest_roundtrip i Hg) as [i' [Hc Hp]].
+  exists i'. split; [exact Hc|]. split; [exact Hp|].
+  apply (closed_dom_ret_eq o f i i' H). apply (ret_eq_of_preserved o f i i' H Hp).
+  unfold conv_rest in Hc. binv Hc. exact (parse_dot_internal _ _ _ _ _ Hc).
+Qed.
+
+(* function / method: emit.function and to_docstring look at summary, parameters and return entry only *)
+Lemma emit_fn_ret_view : forall fo i tds c r, C03Spec.fo_kind fo = c :: r ->
+    internal_ok i = true -> internal_ok7 i = true ->
+    C03Spec.emit_fn fo i tds = C03Spec.emit_fn fo (ret_view i) tds.
+Proof.
+  intros fo i tds c r Hk H H7.
+  pose proof (get_internal_body_fn (C03Spec.fo_kind fo) i H H7) as Hb.
+  destruct i as [n t d ps rr b]. unfold ret_view. cbn [ir_doc ir_params ir_returns].
+  unfold C03Spec.emit_fn, emit_function.
+  assert (Hf : forall x, py_or (Some C03Spec.fname) x = Ok (Some C03Spec.fname)) by reflexivity.
+  assert (Hkd : forall x, py_or (Some (C03Spec.fo_kind fo)) x = Ok (Some (C03Spec.fo_kind fo))) by (rewrite Hk; reflexivity).
+  rewrite !Hf, !Hkd. cbn [bind]. rewrite Hb.
+  assert (Hb' : get_internal_body (Some C03Spec.fname) (Some (C03Spec.fo_kind fo)) (mkIR FNone FNone d ps rr None) = Ok [])
+    by reflexivity.
+  rewrite Hb'. unfold function_return_val, returns_param. cbn [ir_params ir_returns ir_name ir_type bind].
+  repeat match goal with
+         | |- bind (bind ?x _) _ = bind (bind ?x _) _ => destruct x; cbn [bind]
+         end; reflexivity.
+Qed.
+
+Lemma conv_fn_ret_view : forall o f c r i, internal_ok i = true -> internal_ok7 i = true ->
+    conv_fn o f (c :: r) i = conv_fn o f (c :: r) (ret_view i).
+Proof.
+  intros o f c r i H H7. unfold conv_fn.
+  assert (Et : C03DocLinkDefs.function_docstring_text (ce_w o) (fn_opts o f (c :: r)) i
+               = C03DocLinkDefs.function_docstring_text (ce_w o) (fn_opts o f (c :: r)) (ret_view i)).
+  { unfold C03DocLinkDefs.function_docstring_text.
+    assert (X : forall x : outcome (str * ir), (do r <- x; Ok (fst r)) = C08Facts.text_of x)
+      by (intros [[t j]|err]; reflexivity).
+    rewrite !X. apply C08Facts.to_docstring_text_lemma; reflexivity. }
+  rewrite Et.
+  destruct (C03DocLinkDefs.function_docstring_text _ _ (ret_view i)) as [text|e]; cbn [bind]; [|reflexivity].
+  destruct (C03DocLinkDefs.function_docstring_ir text) as [d|e]; cbn [bind]; [|reflexivity].
+  unfold C03Spec.round_trip_fn. rewrite (emit_fn_ret_view (fn_opts o f (c :: r)) i (Ok text) c r eq_refl H H7). reflexivity.
+Qed.
+
+Lemma same_return_fn_complete : forall g g', complete_return g = true -> C03Spec.same_param_fn g g' = true -> g' = g.
+Proof.
+  intros [gd gt gdef] [gd' gt' gdef'] Hc H. unfold complete_return in Hc. cbn [g_doc g_typ g_default] in Hc.
+  destruct gd as [| |[|c r]]; try discriminate Hc. destruct gt as [| |[|tc tr]]; try discriminate Hc.
+  cbn [fld_str] in Hc. destruct gdef; [discriminate Hc|].
+  unfold C03Spec.same_param_fn in H. apply andb_true_iff in H. destruct H as [H Hd]. apply andb_true_iff in H. destruct H as [Ht Hp].
+  unfold C02Spec.same_typ in Ht. unfold C02Spec.same_prose, C02Spec.prose_of in Hp. unfold C02Spec.default_same in Hd.
+  cbn [g_doc g_typ g_default fget] in *.
+  destruct gt' as [| |t']; cbn [fget C02Spec.opt_str_eqb] in Ht; try discriminate Ht. apply str_eqb_eq in Ht. subst t'.
+  destruct gd' as [| |[|c' r']]; cbn [C02Spec.opt_str_eqb] in Hp; try discriminate Hp. apply str_eqb_eq in Hp. rewrite <- Hp.
+  destruct gdef'; [discriminate Hd|reflexivity].
+Qed.
+
+Theorem conv_fn_ret_closed : forall o f c r i, closed_dom_ret o f i = true -> fn_guard_ret o f (c :: r) i = true ->
+    exists i', conv_fn o f (c :: r) i = Ok i' /\ ret_eq i i'.
+Proof.
+  intros o f c r i H Hg. destruct (closed_dom_ret_inv o f i H) as [_ [Hc [Hrest [Hi [H7 _]]]]].
+  destruct (complete_ret_inv i Hc) as [[d0 Ed0] [Hf [g [Eg Hcg]]]].
+  assert (Hne0 : d0 <> []).
+  { unfold guard_C01_rest in Hrest. apply andb_true_iff in Hrest. destruct Hrest as [_ Hfc].
+    intros E. subst d0.
+    unfold fn_guard_ret in Hg. apply andb_true_iff in Hg. destruct Hg as [_ Hl].
+    unfold C03DocLinkDefs.doc_link_ok in Hl. do 3 (apply andb_true_iff in Hl; destruct Hl as [Hl ?]).
+    clear - H Ed0. unfold closed_dom_ret in H. do 6 (apply andb_true_iff in H; destruct H as [H ?]).
+    unfold chain_safe in H. apply andb_true_iff in H. destruct H as [_ H].
+    unfold c05_class_of, summary_class in H. rewrite Ed0 in H. cbn in H. discriminate H. }
+  rewrite (conv_fn_ret_view o f c r i Hi H7).
+  unfold fn_guard_ret in Hg. apply andb_true_iff in Hg. destruct Hg as [Hg Hl].
+  set (fo := fn_opts o f (c :: r)) in *.
+  destruct (FnLink.fn_doc_link_sum (ce_w o) fo (ret_view i) Hg Hl) as [text [d [Ht [Hdd [Ha Hsum]]]]].
+  assert (Hdint : ir_internal d = None).
+  { unfold C03DocLinkDefs.function_docstring_ir in Hdd. binv Hdd. exact (parse_dot_internal _ _ _ _ _ Hdd). }
+  assert (Hnod : forall g0, ir_returns (ret_view i) = Has g0 -> g_default g0 = None).
+  { intros g0 E0. cbn [ret_view ir_returns] in E0. rewrite Eg in E0. injection E0 as E0. subst g0.
+    unfold complete_return in Hcg. destruct (fld_str (g_doc g)); [|discriminate]. destruct (fld_str (g_typ g)); [|discriminate].
+    destruct (g_default g); [discriminate|reflexivity]. }
+  destruct (FnRT2.fn_round_trip_fields_ret fo (ret_view i) text d Hg Ha Hnod Hdint) as [i' [Hrt [Hsame [Hdoc Hint]]]].
+  exists i'. split.
+  - unfold conv_fn. fold fo. rewrite Ht. cbn [bind]. rewrite Hdd. cbn [bind]. exact Hrt.
+  - unfold C03Spec.same_interface_fn in Hsame. apply andb_true_iff in Hsame. destruct Hsame as [Hsame _].
+    apply andb_true_iff in Hsame. destruct Hsame as [Hps Hrs]. cbn [ret_view ir_params ir_returns] in Hps, Hrs.
+    constructor.
+    + rewrite Hdoc. rewrite Ed0. apply Hsum; [exact Ed0|exact Hne0].
+    + apply same_params_fn_complete; [|exact Hf|exact Hps].
+      exact (C03Compose.gf_nodup _ _ (C03Compose.guard_inv fo (ret_view i) Hg)).
+    + unfold C03Spec.same_returns_fn in Hrs. rewrite Eg in *. cbn [fget] in Hrs.
+      destruct (ir_returns i') as [| |g']; cbn [fget] in Hrs; try discriminate Hrs.
+      rewrite (same_return_fn_complete g g' Hcg Hrs). reflexivity.
+    + exact Hint.
+Qed.
+
+Theorem law_ret : forall o f k, ret_kind k = true -> kind_law (conv_model7 o f) (closed_dom_ret o f) k.
+Proof.
+  intros o f k Hk i H. destruct (closed_dom_ret_inv o f i H) as [_ [_ [_ [_ [_ [Hs Hm]]]]]].
+  assert (Hfn : forall c r, fn_guard_ret o f (c :: r) i = true ->
+                exists i', conv_fn o f (c :: r) i = Ok i' /\ preserved i i' = true /\ closed_dom_ret o f i' = true).
+  { intros c r Hg. destruct (conv_fn_ret_closed o f c r i H Hg) as [i' [Hc Hre]]. exists i'. split; [exact Hc|].
+    split; [exact (ret_eq_preserved i i' Hre)|exact (closed_dom_ret_eq o f i i' H Hre)]. }
+  destruct k; try discriminate Hk.
+  - exact (law_rest_ret o f i H).
+  - exact (Hfn _ _ Hs).
+  - exact (Hfn _ _ Hm).
+Qed.
+
+Theorem chain_closed_ret : forall o f cs, forallb ret_kind cs = true ->
+    forall i, closed_dom_ret o f i = true ->
+    exists i', chain (conv_model7 o f) cs i = Ok i' /\ preserved i i' = true /\ closed_dom_ret o f i' = true.
+Proof.
+  intros o f cs Hcs.
+  apply (C05Facts.chain_preserved ir kind preserved (conv_model7 o f) (closed_dom_ret o f)
+                                  C05Facts.preserved_refl C05Facts.preserved_trans cs).
+  intros k Hk. rewrite forallb_forall in Hcs. exact (law_ret o f k (Hcs k Hk)).
+Qed.
+
+Lemma w_ret_closed_in_dom :
+  closed_dom_ret default_env default_fenv w_ret_closed = true
+  /\ closed_dom_ret default_env (mkFE false false 1 false false) w_ret_closed = true
+  /\ match chain (conv_model7 default_env default_fenv) [KFunction; KRest; KMethod; KMethod; KRest; KFunction] w_ret_closed with
+     | Ok i' => preserved w_ret_closed i' && closed_dom_ret default_env default_fenv i'
+     | Err _ => false
+     end = true.
+Proof. vm_compute. repeat split; reflexivity. Qed.
